@@ -1,31 +1,35 @@
 (* C13 — Accepted definitions never compute an address outside their address type.
 
-   Model (coq/theories/Addr.v): [find_min_max_addresses] with its address_offsets stack / last_depth discipline
-   ([mm_walk]), [address_types_specified], [address_types_big_enough], [best_internal] (the bit-width formula of
-   find_best_internal_address), [gen_addr] = the emitted arithmetic `self.base_address + ADDR (+|-) index as IT *
-   |STRIDE|` evaluated left to right in the internal type with overflow checks on, then `as AT`.
+   Model (coq/theories/Addr.v): [find_min_max_addresses] = the REPAIRED walk of generation/src/mir/passes/mod.rs
+   (collect_min_max_addresses: every object of a list is visited with the interval [lo, hi] of the enclosing block
+   instances; a ref counts with its target's address / repeat where it does not override them; the children of a block —
+   the target's children for a block ref — are visited with the object's own interval; i128), [address_types_specified],
+   [address_types_big_enough], [best_internal] (the bit-width formula of find_best_internal_address, u128), [gen_addr] =
+   the emitted arithmetic `self.base_address + ADDR (+|-) index as IT * |STRIDE|` evaluated left to right in the internal
+   type with overflow checks on, then `as AT`.
    Spec: [instances] / [i_addr] = addr_sem over every valid index tuple, [in_range].  [accepted] = every
-   address-related check of the pipeline passes. *)
+   address-related check of the pipeline passes.
+
+   The walk as it was before the repair of D3 / D3c / D4 / D4b / D4c is kept as [pre_mm_walk] .. [pre_accepted]
+   (Addr.v section (d-pre)); only the HISTORICAL theorems below are about it. *)
 From Coq Require Import ZArith List Bool String.
 From DD Require Import Common Mir GenErr Addr AddrProofs.
 Import ListNotations.
 Open Scope Z_scope.
 
-(* THE FULL STATEMENT (false of the faithful model, see the five refutations below):
+(* THE FULL STATEMENT
 
-   Theorem C13_full : forall fuel dev_name d l,
-     accepted false fuel dev_name d -> instances fuel (d_objects d) = Ok l ->
+     forall fx fuel dev_name d fi l, accepted fx fuel dev_name d -> instances fi (d_objects d) = Ok l ->
      forall i, In i l ->
-       exists t it, address_type_of (d_config d) (i_kind i) = Some t /\ internal_type d = Ok it /\
+       exists t it, address_type_of (d_config d) (i_kind i) = Some t /\ internal_type_at fuel d = Ok it /\
          in_range (integer_ity t) (i_addr i) = true /\
-         gen_addr true it (integer_ity t) (i_path i) = Ok (i_addr i).
+         gen_addr true it (integer_ity t) (i_path i) = Ok (i_addr i)
 
-   What is proved instead: the statement for every UNTAGGED instance of ANY tree (C13_untagged_partial) — an
-   instance is tagged when it sits under a repeated block (D3), is reached through a block ref (D4), is a
-   register/command ref that keeps its target's address (D4b) or its repeated target's repeat (D4c) — hence for
-   every instance of a tree without those constructs (C13_partial); the no-overflow half under the side
-   condition "internal type unsigned, or the object's own (count-1)*|stride| fits the internal type" (D3b).
-   Missing: nothing else; each excluded class is refuted by a witness accepted by the real generator. *)
+   is proved for EVERY instance of EVERY tree (repeated blocks, block refs, refs that keep their target's address or
+   repeat included: no class is excluded any more) up to its last conjunct, which holds under the side condition
+   "internal type unsigned, or every step's (count-1)*|stride| fits the internal type": C13_accepted_all_fit and
+   C13_accepted_no_overflow.  Without the side condition the last conjunct is false of the faithful model AND of the real
+   generator (D3b, still open): C13_signed_product_refuted.  Nothing else is missing. *)
 
 Definition ex_cfg (r c b : option integer) : config :=
   {| g_default_register_access := RW; g_default_field_access := RW; g_default_buffer_access := RW;
@@ -37,124 +41,88 @@ Definition ex_reg (n : string) (a : Z) (rep : option repeat) : object :=
                rg_size_bits := 8; rg_reset := None; rg_repeat := rep; rg_fields := [] |}.
 Definition ex_buf (n : string) (a : Z) : object :=
   OBuffer {| bf_cfg := None; bf_name := n; bf_access := RW; bf_address := a |}.
+
 Definition u8 : ity := integer_ity IU8.
 Definition i8 : ity := integer_ity II8.
+Definition u16 : ity := {| signed := false; bits := 16 |}.
 
-(* D3: u8; block Blk { offset 0, repeat 3 x 100 } { register Inner @60 } is accepted; blk(2).inner() = 260:
-   overflow panic with checks on, bus address 4 without. *)
-Definition d3 : device :=
-  {| d_config := ex_cfg (Some IU8) None None;
-     d_objects := [OBlock None "Blk" 0 (Some {| r_count := 3; r_stride := 100 |}) [ex_reg "Inner" 60 None]] |}.
+(* ---------------------------------------------------------------------------------------------- *)
+(* The theorems about the code as it is now *)
 
-Theorem C13_repeated_block_refuted :
-  exists d l i, accepted false 10 "Dev" d /\ instances 10 (d_objects d) = Ok l /\ In i l /\
-    c13_tags i = [TRepBlock] /\ i_kind i = KRegister /\ i_addr i = 260 /\ in_range u8 (i_addr i) = false /\
-    internal_type d = Ok u8 /\
-    gen_addr true u8 u8 (i_path i) = Fail Overflow /\ gen_addr false u8 u8 (i_path i) = Ok 4.
-Proof.
-  exists d3. eexists. eexists.
-  split; [vm_compute; reflexivity|]. split; [vm_compute; reflexivity|].
-  split; [right; right; left; reflexivity|]. vm_compute. repeat split; reflexivity.
-Qed.
+(* The min/max walk of a kind bounds every address an accessor of that kind can produce — any tree, any construct. *)
+Theorem C13_walk_bounds_instances : forall fuel fi objs k mn mx l i,
+  find_min_max_addresses fuel (filter_kind k) objs = Ok (mn, mx) ->
+  instances fi objs = Ok l -> In i l -> i_kind i = k -> mn <= i_addr i <= mx.
+Proof. exact walk_bounds_instances. Qed.
 
-(* D4: u8; block A { register Inner @10 }, ref B = block A { ADDRESS_OFFSET = 250 } is accepted; 260 does not fit *)
-Definition d4 : device :=
-  {| d_config := ex_cfg (Some IU8) None None;
-     d_objects := [OBlock None "A" 0 None [ex_reg "Inner" 10 None]; ORef None "B" (OvBlock "A" (Some 250) None)] |}.
+(* ... and it is exact: [points] lists what the walk of a filter is about (Addr.v: for every object the filter lets
+   through, its address for every index tuple of the enclosing blocks / block refs and every own index — a count of 0
+   counting like 1 — blocks with the base address of each block instance); the walk's (min, max) are the minimum and
+   the maximum of 0 and those points: each of them is 0 or a point, and every point lies between them.  So a rejection
+   always states an address that an accessor of that kind — or, the over-rejection DESIGN allows, a block instance —
+   really has (or 0). *)
+Theorem C13_walk_exact : forall fuel fp filter objs mn mx ps,
+  find_min_max_addresses fuel filter objs = Ok (mn, mx) -> points fp filter objs = Ok ps ->
+  (forall p, In p (0 :: ps) -> mn <= p <= mx) /\ In mn (0 :: ps) /\ In mx (0 :: ps).
+Proof. exact walk_exact. Qed.
 
-Theorem C13_block_ref_refuted :
-  exists d l i, accepted false 10 "Dev" d /\ instances 10 (d_objects d) = Ok l /\ In i l /\
-    c13_tags i = [TBlockRef] /\ i_kind i = KRegister /\ i_addr i = 260 /\ in_range u8 (i_addr i) = false /\
-    gen_addr true u8 u8 (i_path i) = Fail Overflow.
-Proof.
-  exists d4. eexists. eexists.
-  split; [vm_compute; reflexivity|]. split; [vm_compute; reflexivity|].
-  split; [right; left; reflexivity|]. vm_compute. repeat split; reflexivity.
-Qed.
+(* the address of every instance of a kind is one of the points of the kind's filter *)
+Theorem C13_instances_are_points : forall fi fp objs l i ps,
+  instances fi objs = Ok l -> In i l -> points fp (filter_kind (i_kind i)) objs = Ok ps -> In (i_addr i) ps.
+Proof. exact instances_are_points. Qed.
 
-(* D4b: u8; register X @10, block B { offset 250 } { ref Y = register X { Access = RO } } is accepted; b().y() = 260 *)
-Definition d4b : device :=
-  {| d_config := ex_cfg (Some IU8) None None;
-     d_objects := [ex_reg "X" 10 None;
-                   OBlock None "B" 250 None [ORef None "Y" (OvRegister "X" (Some RO) None false None None)]] |}.
+(* C13, first half, for every instance of every accepted definition: the kind's address type exists and the address
+   fits it.  No tag / class exclusions. *)
+Theorem C13_accepted_all_fit : forall fx fuel dev_name d fi l,
+  accepted fx fuel dev_name d -> instances fi (d_objects d) = Ok l ->
+  forall i, In i l ->
+    exists t, address_type_of (d_config d) (i_kind i) = Some t /\ in_range (integer_ity t) (i_addr i) = true.
+Proof. exact c13_accepted_all_fit. Qed.
 
-Theorem C13_ref_without_address_refuted :
-  exists d l i, accepted false 10 "Dev" d /\ instances 10 (d_objects d) = Ok l /\ In i l /\
-    c13_tags i = [TRefNoAddr] /\ i_kind i = KRegister /\ i_addr i = 260 /\ in_range u8 (i_addr i) = false /\
-    gen_addr true u8 u8 (i_path i) = Fail Overflow.
-Proof.
-  exists d4b. eexists. eexists.
-  split; [vm_compute; reflexivity|]. split; [vm_compute; reflexivity|].
-  split; [right; left; reflexivity|]. vm_compute. repeat split; reflexivity.
-Qed.
+(* C13, second half: the internal type exists and contains every value on the way to every instance (base + ADDR and
+   the block instance / object address of every step: [checkpoints]); and — internal type unsigned, or every step's
+   (count-1)*|stride| within the internal type (the D3b side condition) — the emitted arithmetic, overflow checks on,
+   yields exactly the address. *)
+Theorem C13_accepted_no_overflow : forall fx fuel dev_name d fi l,
+  accepted fx fuel dev_name d -> instances fi (d_objects d) = Ok l ->
+  forall i, In i l ->
+    exists t it, address_type_of (d_config d) (i_kind i) = Some t /\ internal_type_at fuel d = Ok it /\
+      in_range (integer_ity t) (i_addr i) = true /\
+      Forall (fun z => in_range it z = true) (checkpoints 0 (i_path i)) /\
+      ((signed it = false \/ steps_product_ok it (i_path i)) ->
+       gen_addr true it (integer_ity t) (i_path i) = Ok (i_addr i)).
+Proof. exact c13_accepted_no_overflow. Qed.
 
-(* D4c (found by this model): u8; register X @0 repeat 3 x 10, ref Y = register X { ADDRESS = 250 } is accepted;
-   the ref keeps its target's repeat: y(1) = 260, y(2) = 270 *)
-Definition d4c : device :=
-  {| d_config := ex_cfg (Some IU8) None None;
-     d_objects := [ex_reg "X" 0 (Some {| r_count := 3; r_stride := 10 |});
-                   ORef None "Y" (OvRegister "X" None (Some 250) false None None)] |}.
-
-Theorem C13_ref_keeps_repeat_refuted :
-  exists d l i, accepted false 10 "Dev" d /\ instances 10 (d_objects d) = Ok l /\ In i l /\
-    c13_tags i = [TRefKeepsRepeat] /\ i_kind i = KRegister /\ i_addr i = 270 /\ in_range u8 (i_addr i) = false /\
-    gen_addr true u8 u8 (i_path i) = Fail Overflow /\ gen_addr false u8 u8 (i_path i) = Ok 14.
-Proof.
-  exists d4c. eexists. eexists.
-  split; [vm_compute; reflexivity|]. split; [vm_compute; reflexivity|].
-  split; [do 5 right; left; reflexivity|]. vm_compute. repeat split; reflexivity.
-Qed.
-
-(* D3b: i8; register R @-100 repeat 3 x 100 is accepted and in the class of C13_partial; every final address
-   (-100, 0, 100) fits, the internal type is i8, and r(2) computes 2i8 * 100: overflow. *)
+(* D3b (OPEN): i8; register R @-100 repeat 3 x 100 is accepted; every final address (-100, 0, 100) fits, the internal
+   type is i8, and r(2) computes 2i8 * 100: overflow.  The side condition of C13_accepted_no_overflow is necessary. *)
 Definition d3b : device :=
   {| d_config := ex_cfg (Some II8) None None;
      d_objects := [ex_reg "R" (-100) (Some {| r_count := 3; r_stride := 100 |})] |}.
 
 Theorem C13_signed_product_refuted :
-  exists d l i, accepted false 10 "Dev" d /\ simple_tree (d_objects d) = true /\
+  exists d l i, accepted false 10 "Dev" d /\
     instances 10 (d_objects d) = Ok l /\ forallb (fun j => in_range i8 (i_addr j)) l = true /\ In i l /\
-    untagged i = true /\ i_addr i = 100 /\ internal_type d = Ok i8 /\
+    i_addr i = 100 /\ internal_type_at 10 d = Ok i8 /\
     gen_addr true i8 i8 (i_path i) = Fail Overflow /\ gen_addr false i8 i8 (i_path i) = Ok 100 /\
-    ~ last_step_product_ok i8 (i_path i).
+    ~ steps_product_ok i8 (i_path i).
 Proof.
   exists d3b. eexists. eexists.
-  split; [vm_compute; reflexivity|]. split; [vm_compute; reflexivity|]. split; [vm_compute; reflexivity|].
+  split; [vm_compute; reflexivity|]. split; [vm_compute; reflexivity|].
   split; [vm_compute; reflexivity|].
-  split; [right; right; left; reflexivity|]. vm_compute. repeat split; try reflexivity. intros H; apply H; reflexivity.
+  split; [right; right; left; reflexivity|]. vm_compute. repeat split; try reflexivity.
+  intros H. inversion H as [|? ? Hp _]; subst. apply Hp. reflexivity.
 Qed.
 
-(* C13 for every untagged instance of ANY accepted tree: the kind's address type exists, the address fits
-   it, and — internal type unsigned or the object's own (count-1)*|stride| within the internal type — the
-   emitted arithmetic, overflow checks on, yields exactly that address. *)
-Theorem C13_untagged_partial : forall fx fuel dev_name d l,
-  accepted fx fuel dev_name d -> instances fuel (d_objects d) = Ok l ->
-  forall i, In i l -> untagged i = true ->
-    exists t it, address_type_of (d_config d) (i_kind i) = Some t /\ internal_type d = Ok it /\
-      in_range (integer_ity t) (i_addr i) = true /\
-      ((signed it = false \/ last_step_product_ok it (i_path i)) ->
-       gen_addr true it (integer_ity t) (i_path i) = Ok (i_addr i)).
-Proof. exact c13_untagged. Qed.
+(* more fuel never changes the internal type: whenever [internal_type_at] returns for two fuels the results agree (so
+   [internal_type], the one with the default fuel [walk_fuel] used by Emit.v, is the same type whenever it returns) *)
+Theorem C13_internal_type_fuel_monotone : forall f f' d it,
+  (f <= f')%nat -> internal_type_at f d = Ok it -> internal_type_at f' d = Ok it.
+Proof. exact internal_type_at_fuel_le. Qed.
 
-(* Trees without repeated blocks, without block refs, whose register/command refs override the address (and
-   the repeat, when the target is repeated): the min/max walk of each kind bounds every reachable address of
-   that kind, hence accepted ==> every address fits; plus the no-intermediate-overflow statement. *)
-Theorem C13_partial : forall fx fuel dev_name d l,
-  simple_tree (d_objects d) = true -> accepted fx fuel dev_name d ->
-  instances fuel (d_objects d) = Ok l ->
-  forall i, In i l ->
-    fst (find_min_max_addresses (filter_kind (i_kind i)) (d_objects d)) <= i_addr i
-      <= snd (find_min_max_addresses (filter_kind (i_kind i)) (d_objects d)) /\
-    exists t it, address_type_of (d_config d) (i_kind i) = Some t /\ internal_type d = Ok it /\
-      in_range (integer_ity t) (i_addr i) = true /\
-      ((signed it = false \/ last_step_product_ok it (i_path i)) ->
-       gen_addr true it (integer_ity t) (i_path i) = Ok (i_addr i)).
-Proof. exact c13_partial. Qed.
-
-(* the stack walk (address_offsets / last_depth) computes what the natural recursion over the tree computes *)
-Theorem C13_walk_is_structural : forall filter objs,
-  filter_blocks filter -> find_min_max_addresses filter objs = mm_struct_list filter 0 objs (0, 0).
-Proof. exact walk_struct. Qed.
+(* the walk's result contains 0 (it starts from (0, 0)) *)
+Theorem C13_walk_contains_zero : forall fuel filter objs mn mx,
+  find_min_max_addresses fuel filter objs = Ok (mn, mx) -> mn <= 0 <= mx.
+Proof. exact walk_contains_zero. Qed.
 
 (* the internal type chosen by the bit-width formula contains [min, max] (and is at least 8 bits wide) *)
 Theorem C13_internal_type_covers : forall mn mx it,
@@ -162,17 +130,29 @@ Theorem C13_internal_type_covers : forall mn mx it,
   8 <= bits it /\ signed it = (mn <? 0) /\ forall z, mn <= z <= mx -> in_range it z = true.
 Proof. exact best_internal_covers. Qed.
 
+(* hence every instance address and every block instance base address lies in the internal type (any tree) *)
+Theorem C13_internal_type_covers_instances : forall d fuel fi l i it,
+  instances fi (d_objects d) = Ok l -> In i l -> internal_type_at fuel d = Ok it ->
+  Forall (fun z => in_range it z = true) (checkpoints 0 (i_path i)).
+Proof. exact internal_covers_checkpoints. Qed.
+
 (* "rejected with an error stating the offending bound" *)
-Theorem C13_error_states_bound : forall d k e,
-  big_enough_kind d k = Some e ->
-  exists t, address_type_of (d_config d) k = Some t /\
-    let mn := fst (find_min_max_addresses (filter_kind k) (d_objects d)) in
-    let mx := snd (find_min_max_addresses (filter_kind k) (d_objects d)) in
-    (mn < integer_min t /\
-     e = mk_err "address_too_low" [show_akind k; show_Z mn; show_integer t; show_Z (integer_min t)]) \/
-    (integer_max t < mx /\
-     e = mk_err "address_too_high" [show_akind k; show_Z mx; show_integer t; show_Z (integer_max t)]).
+Theorem C13_error_states_bound : forall fuel d k e,
+  big_enough_kind fuel d k = Ok (Some e) ->
+  exists t mn mx, address_type_of (d_config d) k = Some t /\
+    find_min_max_addresses fuel (filter_kind k) (d_objects d) = Ok (mn, mx) /\
+    ((mn < integer_min t /\
+      e = mk_err "address_too_low" [show_akind k; show_Z mn; show_integer t; show_Z (integer_min t)]) \/
+     (integer_max t < mx /\
+      e = mk_err "address_too_high" [show_akind k; show_Z mx; show_integer t; show_Z (integer_max t)])).
 Proof. exact big_enough_error. Qed.
+
+(* ... and a walk range that leaves the kind's address type is never accepted *)
+Theorem C13_unfit_walk_range_rejected : forall fx fuel dev_name d k t mn mx,
+  address_type_of (d_config d) k = Some t ->
+  find_min_max_addresses fuel (filter_kind k) (d_objects d) = Ok (mn, mx) ->
+  (mn < integer_min t \/ integer_max t < mx) -> ~ accepted fx fuel dev_name d.
+Proof. exact walk_range_unfit_not_accepted. Qed.
 
 (* A missing address type for a used object kind is rejected — in full: any register / command / buffer
    object anywhere in the tree (a ref's target is one) ... *)
@@ -189,23 +169,172 @@ Theorem C13_missing_type_rejected_instances : forall d fuel l i,
 Proof. exact instance_type_specified. Qed.
 
 (* ---------------------------------------------------------------------------------------------- *)
+(* HISTORICAL: the witnesses of the repaired defects.  Each was ACCEPTED by the walk as it was before the repair
+   ([pre_accepted], the pre-repair model: Addr.v section (d-pre)) although an instance did not fit; each is now REJECTED
+   with the bound the real generator prints. *)
+
+(* D3 (repaired): u8; block Blk { offset 0, repeat 3 x 100 } { register Inner @60 } was accepted; blk(2).inner() = 260:
+   overflow panic with checks on, bus address 4 without. *)
+Definition d3 : device :=
+  {| d_config := ex_cfg (Some IU8) None None;
+     d_objects := [OBlock None "Blk" 0 (Some {| r_count := 3; r_stride := 100 |}) [ex_reg "Inner" 60 None]] |}.
+
+Theorem C13_historical_D3_repeated_block :
+  exists d l i, pre_accepted false 10 "Dev" d /\ instances 10 (d_objects d) = Ok l /\ In i l /\
+    c13_tags i = [TRepBlock] /\ i_kind i = KRegister /\ i_addr i = 260 /\ in_range u8 (i_addr i) = false /\
+    pre_internal_type d = Ok u8 /\
+    gen_addr true u8 u8 (i_path i) = Fail Overflow /\ gen_addr false u8 u8 (i_path i) = Ok 4.
+Proof.
+  exists d3. eexists. eexists.
+  split; [vm_compute; reflexivity|]. split; [vm_compute; reflexivity|].
+  split; [right; right; left; reflexivity|]. vm_compute. repeat split; reflexivity.
+Qed.
+
+Example C13_D3_now_rejected :
+  addr_check false 10 "Dev" d3 = Ok (Some (mk_err "address_too_high" ["register"; "260"; "u8"; "255"]%string)).
+Proof. vm_compute. reflexivity. Qed.
+
+(* D4 (repaired): u8; block A { register Inner @10 }, ref B = block A { ADDRESS_OFFSET = 250 } was accepted; 260 does not fit *)
+Definition d4 : device :=
+  {| d_config := ex_cfg (Some IU8) None None;
+     d_objects := [OBlock None "A" 0 None [ex_reg "Inner" 10 None]; ORef None "B" (OvBlock "A" (Some 250) None)] |}.
+
+Theorem C13_historical_D4_block_ref :
+  exists d l i, pre_accepted false 10 "Dev" d /\ instances 10 (d_objects d) = Ok l /\ In i l /\
+    c13_tags i = [TBlockRef] /\ i_kind i = KRegister /\ i_addr i = 260 /\ in_range u8 (i_addr i) = false /\
+    gen_addr true u8 u8 (i_path i) = Fail Overflow.
+Proof.
+  exists d4. eexists. eexists.
+  split; [vm_compute; reflexivity|]. split; [vm_compute; reflexivity|].
+  split; [right; left; reflexivity|]. vm_compute. repeat split; reflexivity.
+Qed.
+
+Example C13_D4_now_rejected :
+  addr_check false 10 "Dev" d4 = Ok (Some (mk_err "address_too_high" ["register"; "260"; "u8"; "255"]%string)).
+Proof. vm_compute. reflexivity. Qed.
+
+(* D4b (repaired): u8; register X @10, block B { offset 250 } { ref Y = register X { Access = RO } } was accepted; b().y() = 260 *)
+Definition d4b : device :=
+  {| d_config := ex_cfg (Some IU8) None None;
+     d_objects := [ex_reg "X" 10 None;
+                   OBlock None "B" 250 None [ORef None "Y" (OvRegister "X" (Some RO) None false None None)]] |}.
+
+Theorem C13_historical_D4b_ref_without_address :
+  exists d l i, pre_accepted false 10 "Dev" d /\ instances 10 (d_objects d) = Ok l /\ In i l /\
+    c13_tags i = [TRefNoAddr] /\ i_kind i = KRegister /\ i_addr i = 260 /\ in_range u8 (i_addr i) = false /\
+    gen_addr true u8 u8 (i_path i) = Fail Overflow.
+Proof.
+  exists d4b. eexists. eexists.
+  split; [vm_compute; reflexivity|]. split; [vm_compute; reflexivity|].
+  split; [right; left; reflexivity|]. vm_compute. repeat split; reflexivity.
+Qed.
+
+(* the same with the ref's only override being ALLOW_ADDRESS_OVERLAP *)
+Example C13_D4b_now_rejected :
+  addr_check false 10 "Dev" d4b = Ok (Some (mk_err "address_too_high" ["register"; "260"; "u8"; "255"]%string)) /\
+  addr_check true 10 "Dev"
+    {| d_config := ex_cfg (Some IU8) None None;
+       d_objects := [ex_reg "X" 10 None;
+                     OBlock None "B" 250 None [ORef None "Y" (OvRegister "X" None None true None None)]] |}
+  = Ok (Some (mk_err "address_too_high" ["register"; "260"; "u8"; "255"]%string)).
+Proof. vm_compute. split; reflexivity. Qed.
+
+(* D4c (repaired): u8; register X @0 repeat 3 x 10, ref Y = register X { ADDRESS = 250 } was accepted;
+   the ref keeps its target's repeat: y(1) = 260, y(2) = 270 *)
+Definition d4c : device :=
+  {| d_config := ex_cfg (Some IU8) None None;
+     d_objects := [ex_reg "X" 0 (Some {| r_count := 3; r_stride := 10 |});
+                   ORef None "Y" (OvRegister "X" None (Some 250) false None None)] |}.
+
+Theorem C13_historical_D4c_ref_keeps_repeat :
+  exists d l i, pre_accepted false 10 "Dev" d /\ instances 10 (d_objects d) = Ok l /\ In i l /\
+    c13_tags i = [TRefKeepsRepeat] /\ i_kind i = KRegister /\ i_addr i = 270 /\ in_range u8 (i_addr i) = false /\
+    gen_addr true u8 u8 (i_path i) = Fail Overflow /\ gen_addr false u8 u8 (i_path i) = Ok 14.
+Proof.
+  exists d4c. eexists. eexists.
+  split; [vm_compute; reflexivity|]. split; [vm_compute; reflexivity|].
+  split; [do 5 right; left; reflexivity|]. vm_compute. repeat split; reflexivity.
+Qed.
+
+Example C13_D4c_now_rejected :
+  addr_check false 10 "Dev" d4c = Ok (Some (mk_err "address_too_high" ["register"; "270"; "u8"; "255"]%string)).
+Proof. vm_compute. reflexivity. Qed.
+
+(* D3c (repaired): the old i64 / u64 arithmetic panicked on `buffer Lim = -2^63` (everything fits i64) and on
+   i64; block B @(2^63-1) { register X @1 } (2^63 does not fit).  In i128 / u128 the first is accepted with internal
+   type i128, the second rejected stating the bound. *)
+Definition d3c_fits : device :=
+  {| d_config := ex_cfg None None (Some II64); d_objects := [ex_buf "Lim" (-9223372036854775808)] |}.
+Definition d3c_unfit : device :=
+  {| d_config := ex_cfg (Some II64) None None;
+     d_objects := [OBlock None "B" 9223372036854775807 None [ex_reg "X" 1 None]] |}.
+
+Theorem C13_historical_D3c_i64_overflow :
+  pre_addr_check false 10 "Dev" d3c_fits = Fail Overflow /\ pre_addr_check false 10 "Dev" d3c_unfit = Fail Overflow.
+Proof. vm_compute. split; reflexivity. Qed.
+
+Example C13_D3c_now_handled :
+  addr_check false 10 "Dev" d3c_fits = Ok None /\
+  internal_type_at 10 d3c_fits = Ok {| signed := true; bits := 128 |} /\
+  addr_check false 10 "Dev" d3c_unfit
+    = Ok (Some (mk_err "address_too_high" ["register"; "9223372036854775808"; "i64"; "9223372036854775807"]%string)).
+Proof. vm_compute. repeat split; reflexivity. Qed.
+
+(* ---------------------------------------------------------------------------------------------- *)
 (* Non-vacuity *)
 
-(* blocks.md's offset 5 + 7 = 12 and refs.md's Foo @3 / Bar @5 with u8 types: accepted, in the class of
-   C13_partial, the emitted arithmetic yields 12 / 3 / 5 *)
+(* blocks.md's offset 5 + 7 = 12 and refs.md's Foo @3 / Bar @5 with u8 types: accepted, the emitted arithmetic
+   yields 12 / 3 / 5 *)
 Definition book : device :=
   {| d_config := ex_cfg (Some IU8) None (Some IU8);
      d_objects := [OBlock None "Foo" 5 None [ex_buf "Bar" 7];
                    ex_reg "Fooreg" 3 None; ORef None "Barref" (OvRegister "Fooreg" None (Some 5) false None None)] |}.
 
 Example C13_book_examples :
-  accepted false 10 "Dev" book /\ simple_tree (d_objects book) = true /\ internal_type book = Ok u8 /\
+  accepted false 10 "Dev" book /\ internal_type_at 10 book = Ok u8 /\
   exists l, instances 10 (d_objects book) = Ok l /\ map i_addr l = [12; 3; 5] /\
             map (fun i => gen_addr true u8 u8 (i_path i)) l = [Ok 12; Ok 3; Ok 5].
 Proof.
-  split; [vm_compute; reflexivity|]. split; [reflexivity|]. split; [vm_compute; reflexivity|].
+  split; [vm_compute; reflexivity|]. split; [vm_compute; reflexivity|].
   eexists. split; [vm_compute; reflexivity|]. split; vm_compute; reflexivity.
 Qed.
+
+(* the hypotheses of C13_accepted_all_fit / C13_accepted_no_overflow are satisfiable by a tree with EVERY construct of
+   the repaired classes: a repeated block (@60, 2 x 40) holding a repeated register (2 x 3) and a ref that keeps its
+   target's address and repeat (@50, 2 x 3), a block ref with its own offset and repeat (2 x 100) onto that block:
+   accepted with u8 / internal type u8, 18 instances, the highest at 2 + 100 + 50 + 3 = 155 ... *)
+Definition all_constructs (top : Z) : device :=
+  {| d_config := ex_cfg (Some IU8) None None;
+     d_objects := [ex_reg "X" 50 (Some {| r_count := 2; r_stride := 3 |});
+                   OBlock None "Blk" 60 (Some {| r_count := 2; r_stride := 40 |})
+                     [ex_reg "Inner" 1 (Some {| r_count := 2; r_stride := 3 |});
+                      ORef None "Y" (OvRegister "X" (Some RO) None false None None)];
+                   ORef None "Far" (OvBlock "Blk" (Some top) (Some {| r_count := 2; r_stride := 100 |}))] |}.
+
+Example C13_all_constructs_accepted :
+  accepted false 10 "Dev" (all_constructs 2) /\ internal_type_at 10 (all_constructs 2) = Ok u8 /\
+  find_min_max_addresses 10 (filter_kind KRegister) (d_objects (all_constructs 2)) = Ok (0, 155) /\
+  exists l, instances 10 (d_objects (all_constructs 2)) = Ok l /\ List.length l = 18%nat /\
+            forallb (fun i => in_range u8 (i_addr i)) l = true /\ existsb (fun i => i_addr i =? 155) l = true /\
+            forallb (fun i => match gen_addr true u8 u8 (i_path i) with Ok a => a =? i_addr i | Fail _ => false end) l = true.
+Proof.
+  split; [vm_compute; reflexivity|]. split; [vm_compute; reflexivity|]. split; [vm_compute; reflexivity|].
+  eexists. split; [vm_compute; reflexivity|]. vm_compute. repeat split; reflexivity.
+Qed.
+
+(* its points for the register filter: the 18 instance addresses and the block instance bases 60 and 100 (a block ref
+   itself is not let through by the kind filters: only what stands below it) *)
+Example C13_all_constructs_points :
+  points 10 (filter_kind KRegister) (d_objects (all_constructs 2))
+  = Ok [50; 53; 60; 100; 61; 64; 110; 113; 101; 104; 150; 153; 3; 6; 52; 55; 103; 106; 152; 155].
+Proof. vm_compute. reflexivity. Qed.
+
+(* ... and with the block ref at 103 the highest instance is 256: rejected stating exactly that; at 102 (255) accepted *)
+Example C13_all_constructs_rejected :
+  addr_check false 10 "Dev" (all_constructs 103)
+    = Ok (Some (mk_err "address_too_high" ["register"; "256"; "u8"; "255"]%string)) /\
+  addr_check false 10 "Dev" (all_constructs 102) = Ok None.
+Proof. vm_compute. split; reflexivity. Qed.
 
 (* boundaries: u8 register @250 repeat 2 x 5 (255) accepted; x 6 (256) rejected stating the bound; a negative
    stride reaching -1 rejected; i8 nested offsets -100 + -28 = -128 accepted, -129 rejected; a register
@@ -224,21 +353,28 @@ Example C13_boundaries :
     = Ok (Some (mk_err "no_address_type" ["register"]%string)).
 Proof. vm_compute. repeat split; reflexivity. Qed.
 
-Print Assumptions C13_repeated_block_refuted.
-Print Assumptions C13_block_ref_refuted.
-Print Assumptions C13_ref_without_address_refuted.
-Print Assumptions C13_ref_keeps_repeat_refuted.
+Print Assumptions C13_walk_bounds_instances.
+Print Assumptions C13_walk_exact.
+Print Assumptions C13_instances_are_points.
+Print Assumptions C13_accepted_all_fit.
+Print Assumptions C13_accepted_no_overflow.
 Print Assumptions C13_signed_product_refuted.
-Print Assumptions C13_untagged_partial.
-Print Assumptions C13_partial.
-Print Assumptions C13_walk_is_structural.
+Print Assumptions C13_internal_type_fuel_monotone.
+Print Assumptions C13_walk_contains_zero.
 Print Assumptions C13_internal_type_covers.
+Print Assumptions C13_internal_type_covers_instances.
 Print Assumptions C13_error_states_bound.
+Print Assumptions C13_unfit_walk_range_rejected.
 Print Assumptions C13_missing_type_rejected.
 Print Assumptions C13_missing_type_rejected_instances.
+Print Assumptions C13_historical_D3_repeated_block.
+Print Assumptions C13_historical_D4_block_ref.
+Print Assumptions C13_historical_D4b_ref_without_address.
+Print Assumptions C13_historical_D4c_ref_keeps_repeat.
+Print Assumptions C13_historical_D3c_i64_overflow.
 
 (* ---- whole pipeline: a definition the whole generator accepts is [accepted] in the sense used above (after name
-   normalisation), so C13_untagged_partial / C13_partial apply to it ---- *)
+   normalisation), so C13_accepted_all_fit / C13_accepted_no_overflow apply to it ---- *)
 From DD Require Pipeline PipelineProofs Names.
 Theorem C13_whole_pipeline_accept : forall fuel dev_name d0,
   Pipeline.pipeline_result fuel dev_name d0 = "ok"%string -> accepted true fuel dev_name (Names.names_normalized d0).
